@@ -20,6 +20,18 @@ CHECKS = {
    text="Homogeneity type derivation (dimension calculus) over the exact term DAG each real BHJM wrapper computes on a generic row, for every path: all branch masks and J, M are proved unit-free and B, H of degree 0 / -1 / -3 in the length unit, and of degree 1 in the excitation, given the assumed homogeneity contracts of the core stubs. Absolute constants mixed with lengths are type errors (CylinderSegment's 1e-14 / 1e-12 are a recorded known finding identified by call-site constants). Numeric decade sweep on the real classes is a labelled bounded stand-in.",
    note="Assumes homogeneity of the core field functions (not proved), reals for doubles; TriangularMesh wrapper / mesh validation only in the numeric stand-in.",
    technique="contract-based deductive verification: symbolic execution of the real wrappers + dimension-calculus type derivation over the resulting terms"),
+ "C03": dict(level="proof",
+   text="getBH_level1 (real code object over index-map arrays of symbolic batch length) is proved to compute R·F(R^-1(o-p)) for an arbitrary field function F (z3), and covariance under any rotation Q and translation t follows as a lemma decided by a canonical normal form. The pose tiling of get_src_dict/getBH_level2 is covered by a labelled bounded term-exact stand-in (whole setup moved by symbolic (Q,t)).",
+   note="Assumes scipy Rotation.apply is the group action (and its inverse), field functions depend on the pose only through the local observer; level-2 plumbing bounded in structure.",
+   technique="contract-based deductive verification: symbolic execution of getBH_level1 + z3; lemma by normal form; bounded term-exact stand-in for level 2"),
+ "C04": dict(level="other",
+   text="BOUNDED stand-in only (no proof claimed): the real getBH_level2 is executed term-exactly (real NumPy on object arrays of canonical terms) on enumerated structures; every element must equal flip(S^-1·G(S·pix+s)) for all numeric values/rotations, with pixel_agg mean/sum symbolically (also for different pixel shapes) and every other named reduction numerically.",
+   note="getBH_level2 is outside the VC generator (Python-list structure of symbolic length): structures are bounded (<=2 sensors, <=4 sources, path lengths <=3, pixel shapes up to (2,2,3)).",
+   technique="bounded stand-in for contract verification: term-exact execution of the real function against the contract's prescribed term"),
+ "C05": dict(level="proof",
+   text="Additivity and oddness in the excitation of B and H are proved for the Cuboid, Sphere, Triangle, Tetrahedron, Dipole, Circle, Polyline wrappers on a generic row (three row-generic runs + z3 linear arithmetic, or a structural linearity typing of the term), including consistency of the excitation==0 special cases; with C12's degree-1 homogeneity this is linearity. Sums over collections / sumup are a labelled bounded term-exact stand-in; Cylinder, CylinderSegment, TriangularMesh linearity numeric only.",
+   note="Assumes linearity of the core stubs in their excitation argument; np.sum contract; structures of the reduction loop bounded.",
+   technique="contract-based deductive verification: row-generic symbolic execution + z3 / linearity typing; bounded term-exact stand-in for the reductions"),
 }
 _NB = "stand-in / contracts not built yet in this session (see DESIGN.md); not claimed"
 NA = {
